@@ -116,8 +116,11 @@ class MarkdownRenderer(BaseRenderer):
 
     def block_quote(self, token: Dict[str, Any], state: BlockState) -> str:
         text = indent(self.render_children(token, state), "> ", lambda _: True)
-        text = text.rstrip("> \n")
-        return text + "\n\n"
+        # drop the trailing empty quote lines, never characters of the last content line
+        lines = text.split("\n")
+        while lines and not lines[-1].strip("> "):
+            lines.pop()
+        return "\n".join(lines) + "\n\n"
 
     def block_html(self, token: Dict[str, Any], state: BlockState) -> str:
         return cast(str, token["raw"]) + "\n\n"
